@@ -33,6 +33,7 @@ REQUIRED_THEOREMS = ['duration_timex_reads_back', 'duration_value_matches_timex'
                      'decimal_binary64_exact', 'merged_duration_unparsed', 'unit_first_character_witness', 'set_values',
                      # the repaired variants (fix: duration unit codes / fix: duration value)
                      'fixed_multiplied_code', 'fixed_decades', 'fixed_fortnights', 'fixed_weekend', 'fixed_value_exact',
+                     'fixed_multiplied_is_exact_product', 'fixed_multiplied_fraction', 'multiplied_float_witness',
                      # Props/C10DtPeriod: the computations of BaseDateTimePeriodParser
                      'relative_unit_ok', 'rest_of_day_ok', 'parse_duration_past', 'parse_duration_future',
                      'parse_duration_no_prefix_rejected', 'part_of_day_inside_one_day', 'specific_time_of_day_ok',
